@@ -255,6 +255,16 @@ func faultedStreams(base []byte, rng *splitmix, maxExhaustive int, samples int, 
 			}
 		}
 	}
+	// a split exactly at node boundaries: every reader holds whole nodes, the input stays valid
+	if parts := splitAtNodeEnds(base); len(parts) > 1 {
+		var rs []ReaderSpec
+		for _, p := range parts {
+			rs = append(rs, readerSpecOf(p))
+		}
+		if !emit(streamCase{Kind: "node_split", Readers: rs, Seed: "a1"}) {
+			return
+		}
+	}
 	emit(streamCase{Kind: "empty", Readers: oneReader(nil), Seed: "a1"})
 	return exhaustive
 }
@@ -266,4 +276,26 @@ func validSeed(s string) bool {
 		}
 	}
 	return true
+}
+
+// splitAtNodeEnds cuts a script after every line that consists of === (the end of a node).
+func splitAtNodeEnds(b []byte) [][]byte {
+	var parts [][]byte
+	start := 0
+	lines := strings.SplitAfter(string(b), "\n")
+	pos := 0
+	for _, l := range lines {
+		pos += len(l)
+		if strings.TrimRight(l, "\r\n") == "===" && pos < len(b) {
+			rest := strings.TrimSpace(string(b[pos:]))
+			if rest != "" && !strings.HasPrefix(rest, "//") {
+				parts = append(parts, b[start:pos])
+				start = pos
+			}
+		}
+	}
+	if start == 0 {
+		return nil
+	}
+	return append(parts, b[start:])
 }
